@@ -84,9 +84,19 @@ def decl_ref(tu, e):
     return None
 
 
+OWNER_ALIAS_FIELDS = set()      # fields of functor classes that hold the owner's `this` (Runner{this, ...}: self->member == this->member)
+
+
 def is_this_expr(tu, e):
     c = core(tu, e)
-    return c is not None and c.get('kind') == 'CXXThisExpr'
+    if c is None:
+        return False
+    if c.get('kind') == 'CXXThisExpr':
+        return True
+    if c.get('kind') == 'MemberExpr' and tu.sd(c).get('d') in OWNER_ALIAS_FIELDS and tu.kids(c):
+        b = core(tu, tu.kids(c)[0])
+        return b is not None and b.get('kind') == 'CXXThisExpr'
+    return False
 
 
 def member_parts(tu, e):
@@ -258,9 +268,11 @@ class FunctorClosure:
                             # a reference member bound to a by-value/rvalue constructor parameter dangles just like a by-reference capture
                             self.captures.append((what, ft.rstrip().endswith('&'), ft))
                             self.fieldmap[e[2]] = what
+                            if what == 'this':
+                                OWNER_ALIAS_FIELDS.add(e[2])
 
     def captures_this(self):
-        return False
+        return any(w == 'this' for w, r, t in self.captures)
 
     def capture_of(self, declid):
         for w, r, t in self.captures:
@@ -269,12 +281,48 @@ class FunctorClosure:
         return None
 
 
+class AggregateClosure(FunctorClosure):
+    """Functor{this, f}: aggregate initialisation, field i <- initialiser i"""
+
+    def __init__(self, tu, node, rec, op):
+        self.tu, self.node, self.rec, self.op = tu, node, rec, op
+        self.captures = []
+        self.fieldmap = {}
+        inits = tu.kids(node)
+        for fld, init in zip(rec.get('fields', []), inits):
+            c = core(tu, init)
+            what = None
+            if c is not None and c.get('kind') == 'CXXThisExpr':
+                what = 'this'
+                OWNER_ALIAS_FIELDS.add(fld['id'])
+            elif c is not None and c.get('kind') == 'DeclRefExpr':
+                what = c.get('referencedDecl', {}).get('id')
+            self.captures.append((what, fld.get('type', '').rstrip().endswith('&'), fld.get('type', '')))
+            self.fieldmap[fld['id']] = what
+
+    def captures_this(self):
+        return any(w == 'this' for w, r, t in self.captures)
+
+
 def find_closure(tu, e):
     """Closure / FunctorClosure for an argument expression that denotes a callable object built at the call site"""
     lam = find_lambda(tu, e)
     if lam is not None:
         return Closure(tu, lam)
     c = core(tu, e)
+    n0 = 0
+    while c is not None and c.get('kind') in CONSTRUCTS and len(tu.kids(c)) == 1 and \
+            clean_t(tu.sd(c).get('cty', '')).startswith('std::function<') and n0 < 3:
+        c = core(tu, tu.kids(c)[0])        # conversion of the functor to std::function
+        n0 += 1
+    if c is not None and c.get('kind') == 'InitListExpr':
+        recs = record_of_type(tu, tu.sd(c).get('ct', '') or c.get('type', {}).get('qualType', ''))
+        rec = recs[0] if recs else None
+        if rec is not None and not rec.get('lambda'):
+            ops = [f for f in tu.functions.values() if f.get('recid') == rec['id'] and not f['dep'] and
+                   f['q'].endswith('::operator()') and tu.cfg(f) is not None]
+            if len(ops) == 1:
+                return AggregateClosure(tu, c, rec, ops[0])
     if c is not None and c.get('kind') == 'DeclRefExpr':
         d = tu.node(c.get('referencedDecl', {}).get('id'))
         if d is not None and d.get('kind') == 'VarDecl' and tu.kids(d) and tu.enclosing_fn(d) is not None:
